@@ -239,6 +239,17 @@ func TestVerifLB(t *testing.T) {
 				if u2 := p.Select(pool, cx); u2 != u {
 					fail("nondeterministic", "ip_hash chose differently for the same client and pool")
 				}
+				// the choice is a function of the client's IP address, not of how the socket layer represents it: an IPv4 client
+				// is reported in the 4-byte form by an IPv4 listener and in the 16-byte form by a dual-stack one
+				if ip4 := net.ParseIP(ip).To4(); ip4 != nil {
+					for _, alt := range []net.Addr{&net.TCPAddr{IP: ip4, Port: 5001}, &net.UDPAddr{IP: ip4.To16(), Port: 5002}, &net.UDPAddr{IP: ip4, Port: 5003}} {
+						cxa := layer4.WrapConnection(vaddrConn{remote: alt}, nil, zap.NewNop())
+						if ua := p.Select(pool, cxa); ua != u {
+							fail("ip-form", fmt.Sprintf("ip_hash sends client %s to upstream %d or %d depending on the form of its address (%T, %d-byte IP)", ip, i, idxOf(pool, ua), alt, len(ip4)))
+							break
+						}
+					}
+				}
 				// removing any other upstream keeps the client's choice
 				for k := range pool {
 					if k == i || u == nil {
